@@ -419,11 +419,16 @@ class SpendingPackageAdjustment(Adjustment):
     def set_total_spend(self, instructions, total_spend):
         if self.get_total_spend(instructions) > 0:
             spend_factor = total_spend / self.get_total_spend(instructions)
+            for prog in self.prog_name:
+                ts = instructions.alloc[prog]
+                ts.insert(t=self.t, v=ts.get(self.t) * spend_factor)
         else:
-            spend_factor = 0.0  # if total spending is zero, spending on each program must be zero?
-        for prog in self.prog_name:
-            ts = instructions.alloc[prog]
-            ts.insert(t=self.t, v=ts.get(self.t) * spend_factor)
+            # There is no current spending to rescale, so split the total using the initial proportions
+            # (equal proportions if there was no initial spending either, as in the constructor)
+            initial_total = self.initial_spends.sum()
+            props = self.initial_spends / initial_total if initial_total > 0 else np.full(len(self.prog_name), 1.0 / len(self.prog_name))
+            for prog, prop in zip(self.prog_name, props):
+                instructions.alloc[prog].insert(t=self.t, v=prop * total_spend)
 
 
 class PairedLinearSpendingAdjustment(Adjustment):
